@@ -1,5 +1,6 @@
 mod case;
 mod common;
+mod corpus;
 mod drive;
 mod gen;
 mod json;
@@ -16,6 +17,30 @@ fn arg(args: &[String], name: &str) -> Option<String> {
 
 fn main() {
     let args: Vec<String> = std::env::args().collect();
+    if args.len() >= 4 && args[1] == "try" {
+        // debugging aid: chalk-verif try <program-file> <goal>...
+        drive::install_panic_hook();
+        let text = std::fs::read_to_string(&args[2]).expect("program file");
+        for choice in drive::both() {
+            match drive::load(&text, choice, false) {
+                Err(e) => println!("{}: program error: {}", drive::solver_name(&choice), e),
+                Ok(l) => drive::with_program(&l, || {
+                    for g in &args[3..] {
+                        match drive::lower_goal_text(&l, g) {
+                            Err(e) => println!("{}: {} => goal error: {}", drive::solver_name(&choice), g, e),
+                            Ok(goal) => {
+                                use chalk_solve::ext::GoalExt;
+                                let peeled = goal.into_peeled_goal(chalk_integration::interner::ChalkIr);
+                                let (o, calls, flag) = drive::fresh_solve(&l, choice, &peeled);
+                                println!("{}: {} => {} (callbacks {}, nonground-coinductive {})", drive::solver_name(&choice), g, o.show(), calls, flag);
+                            }
+                        }
+                    }
+                }),
+            }
+        }
+        return;
+    }
     if args.len() < 3 || args[1] != "worker" {
         eprintln!("usage: chalk-verif worker <PROP> --tier quick|thorough --seed S --shard i --nshards W [--start k] [--only k]");
         std::process::exit(64);
